@@ -273,8 +273,13 @@ class Body:
         if key in self._term_cache:
             return self._term_cache[key]
         if 1 <= l <= self.argc:
-            # arguments that are re-assigned are rare; treat as parameter
-            t = ("arg", l - 1, self.names.get(l, "_%d" % l))
+            if self.defs().get(l):
+                # a re-assigned parameter (`mut c`): its value depends on the path
+                t = ("var", l, self.names.get(l, "_%d" % l))
+            else:
+                t = ("arg", l - 1, self.names.get(l, "_%d" % l))
+                if l in self.mut_borrowed():
+                    t = ("mutated", t, l)
             self._term_cache[key] = t
             return t
         ds = self.defs().get(l, [])
